@@ -9,6 +9,7 @@ package main
 
 import (
 	"bytes"
+	"encoding/json"
 	"fmt"
 	"os"
 	"os/exec"
@@ -17,7 +18,6 @@ import (
 	"strconv"
 	"strings"
 	"sync"
-	"sync/atomic"
 	"time"
 
 	"github.com/Tom-Johnston/mamba/comb"
@@ -35,17 +35,21 @@ import (
 // job is the work of one goroutine; it returns a canonical text of everything it computed.
 type job func() string
 
-var active, maxActive int32
+// overlap is measured from per-goroutine time stamps written into the goroutine's own slot: an
+// atomic counter shared by the goroutines would itself order them (the race detector treats
+// atomics as synchronisation) and hide races between a goroutine that finished and one that
+// had not started yet.
+var sawOverlap bool
 
-func track() func() {
-	a := atomic.AddInt32(&active, 1)
-	for {
-		m := atomic.LoadInt32(&maxActive)
-		if a <= m || atomic.CompareAndSwapInt32(&maxActive, m, a) {
-			break
+func intervalsOverlap(from, to []time.Time) bool {
+	for i := range from {
+		for j := range from {
+			if i < j && from[i].Before(to[j]) && from[j].Before(to[i]) {
+				return true
+			}
 		}
 	}
-	return func() { atomic.AddInt32(&active, -1) }
+	return false
 }
 
 // guarded runs a job; a panic becomes part of the result (a deterministic panic of the code
@@ -67,6 +71,7 @@ const phaseLimit = 60 * time.Second
 // own first result is kept (it will differ from the reference too).
 func runConcurrently(jobs []job) (got []string, finished bool) {
 	got = make([]string, len(jobs))
+	from, to := make([]time.Time, len(jobs)), make([]time.Time, len(jobs))
 	start := make(chan struct{})
 	var wg sync.WaitGroup
 	for i, j := range jobs {
@@ -74,14 +79,14 @@ func runConcurrently(jobs []job) (got []string, finished bool) {
 		go func(i int, j job) {
 			defer wg.Done()
 			<-start
-			done := track()
+			from[i] = time.Now()
 			first := guarded(j)
 			res := first
 			for rep, t0 := 0, time.Now(); rep < 40 && res == first && time.Since(t0) < 4*time.Millisecond; rep++ {
 				res = guarded(j)
 			}
 			got[i] = res
-			done()
+			to[i] = time.Now()
 		}(i, j)
 	}
 	close(start)
@@ -89,6 +94,9 @@ func runConcurrently(jobs []job) (got []string, finished bool) {
 	go func() { wg.Wait(); close(all) }()
 	select {
 	case <-all:
+		if intervalsOverlap(from, to) {
+			sawOverlap = true
+		}
 		return got, true
 	case <-time.After(phaseLimit):
 		return got, false
@@ -124,15 +132,15 @@ func runBoth(jobs, ref []job, rounds int) (want []string, diff string, overlappe
 			got, finished = runConcurrently(jobs)
 		}
 		if !finished {
-			return want, fmt.Sprintf("the %d goroutines did not finish within %v although the same work done alone did", len(jobs), phaseLimit), atomic.LoadInt32(&maxActive) > 1, false
+			return want, fmt.Sprintf("the %d goroutines did not finish within %v although the same work done alone did", len(jobs), phaseLimit), sawOverlap, false
 		}
 		for i := range jobs {
 			if got[i] != want[i] {
-				return want, fmt.Sprintf("goroutine %d of %d obtained %.300q, alone it obtains %.300q", i, len(jobs), got[i], want[i]), atomic.LoadInt32(&maxActive) > 1, false
+				return want, fmt.Sprintf("goroutine %d of %d obtained %.300q, alone it obtains %.300q", i, len(jobs), got[i], want[i]), sawOverlap, false
 			}
 		}
 	}
-	return want, "", atomic.LoadInt32(&maxActive) > 1, false
+	return want, "", sawOverlap, false
 }
 
 func randomGraph(r *hx.Rng, n int, num, den int) *graph.DenseGraph {
@@ -220,6 +228,173 @@ func identity(n int) []int {
 		p[i] = i
 	}
 	return p
+}
+
+// sizes just below / at / above the usual capacity and word-size thresholds
+var thresholds = []int{7, 8, 9, 15, 16, 17, 31, 32, 33, 63, 64, 65}
+
+func sizeAround(r *hx.Rng, small, max int) int {
+	if r.Chance(1, 2) {
+		return r.Range(small, 14)
+	}
+	for {
+		if t := thresholds[r.Intn(len(thresholds))]; t <= max {
+			return t
+		}
+	}
+}
+
+// wordsOver: count distinct words over the given alphabet, sorted
+func wordsOver(r *hx.Rng, count int, alphabet []byte, maxLen int) [][]byte {
+	set := map[string]bool{}
+	for tries := 0; len(set) < count && tries < 50*count; tries++ {
+		l := r.Range(0, maxLen)
+		b := make([]byte, l)
+		for i := range b {
+			b[i] = alphabet[r.Intn(len(alphabet))]
+		}
+		set[string(b)] = true
+	}
+	var ws []string
+	for w := range set {
+		ws = append(ws, w)
+	}
+	sort.Strings(ws)
+	out := make([][]byte, len(ws))
+	for i, w := range ws {
+		out[i] = []byte(w)
+	}
+	return out
+}
+
+// alphabetOf: narrow and wide alphabets (nodes with 2 .. 64 links), plain letters or the full byte range
+func alphabetOf(r *hx.Rng) []byte {
+	size := []int{2, 3, 5, 7, 8, 9, 16, 17, 26, 40, 64}[r.Intn(11)]
+	a := make([]byte, size)
+	if r.Chance(1, 3) {
+		special := []byte{0x00, 0x7f, 0x80, 0xff, '.', '0', ' ', 0x20 + 64, 0x01}
+		for i := range a {
+			if i < len(special) {
+				a[i] = special[i]
+			} else {
+				a[i] = byte(90 + i)
+			}
+		}
+		sort.Slice(a, func(i, j int) bool { return a[i] < a[j] })
+		return a
+	}
+	for i := range a {
+		a[i] = byte('a' + i)
+	}
+	return a
+}
+
+// evenLength is a user's own dawg.Searcher: accepts the words of even length.
+type evenLength struct{ depth int }
+
+func (e *evenLength) AllowStep(b byte) bool { return true }
+func (e *evenLength) Step(b byte)           { e.depth++ }
+func (e *evenLength) Backstep()             { e.depth-- }
+func (e *evenLength) AllowWord() bool       { return e.depth%2 == 0 }
+func (e *evenLength) Chosen()               {}
+
+// userGraph is a user's own implementation of graph.Graph (adjacency matrix, no shared writes).
+type userGraph struct {
+	n   int
+	adj []bool
+}
+
+func newUserGraph(g graph.Graph) *userGraph {
+	u := &userGraph{n: g.N(), adj: make([]bool, g.N()*g.N())}
+	for i := 0; i < u.n; i++ {
+		for j := 0; j < u.n; j++ {
+			u.adj[i*u.n+j] = i != j && g.IsEdge(i, j)
+		}
+	}
+	return u
+}
+func (u *userGraph) N() int { return u.n }
+func (u *userGraph) M() int {
+	m := 0
+	for _, b := range u.adj {
+		if b {
+			m++
+		}
+	}
+	return m / 2
+}
+func (u *userGraph) IsEdge(i, j int) bool {
+	return i >= 0 && j >= 0 && i < u.n && j < u.n && u.adj[i*u.n+j]
+}
+func (u *userGraph) Neighbours(v int) []int {
+	nb := []int{}
+	for j := 0; j < u.n; j++ {
+		if u.adj[v*u.n+j] {
+			nb = append(nb, j)
+		}
+	}
+	return nb
+}
+func (u *userGraph) Degrees() []int {
+	d := make([]int, u.n)
+	for i := range d {
+		d[i] = len(u.Neighbours(i))
+	}
+	return d
+}
+
+// structuredGraph: graphs with many automorphisms and ties (pruning and tie-break paths of the
+// canonical search), else a random graph
+func structuredGraph(r *hx.Rng, n int) *graph.DenseGraph {
+	switch r.Intn(6) {
+	case 0:
+		return graph.Cycle(n)
+	case 1:
+		return graph.CompletePartiteGraph(n/2, n-n/2)
+	case 2: // disjoint union of two equal cycles plus isolated rest
+		g := graph.NewDense(n, nil)
+		h := n / 2
+		for i := 0; i < h && h > 2; i++ {
+			g.AddEdge(i, (i+1)%h)
+			g.AddEdge(h+i, h+(i+1)%h)
+		}
+		return g
+	case 3:
+		return graph.CirculantGraph(n, 1, 2)
+	case 4:
+		return graph.NewDense(n, nil)
+	}
+	return randomGraph(r, n, r.Range(1, 4), 5)
+}
+
+// presentations of one abstract graph: every way the API allows to obtain it
+func presentations(r *hx.Rng, g *graph.DenseGraph) []graph.Graph {
+	n := g.N()
+	sp := toSparse(g)
+	out := []graph.Graph{g, sp, graph.Complement(g), graph.Complement(sp), newUserGraph(g), graph.Complement(newUserGraph(g)),
+		g.Copy(), sp.Copy(), graph.Complement(graph.Complement(g)), graph.InducedSubgraph(g, identity(n)), graph.InducedSubgraph(sp, r.Perm(n)),
+		graph.Complement(graph.InducedSubgraph(g, r.Perm(n)[:r.Range(1, n)]))}
+	// after an edit history that leaves stale capacity behind
+	e := g.Copy()
+	e.AddVertex(identity(n))
+	e.RemoveVertex(n)
+	out = append(out, e)
+	es := sp.Copy()
+	es.AddVertex([]int{0})
+	es.RemoveVertex(n)
+	out = append(out, es)
+	// decoder outputs (not in a cold process: building them would run the encoders, which the
+	// goroutines are to meet first, before any goroutine starts)
+	if coldProcess {
+		return append(out, g.Copy(), sp.Copy())
+	}
+	if d, err := graph.Graph6Decode(graph.Graph6Encode(g)); err == nil {
+		out = append(out, d)
+	}
+	if d, err := graph.Sparse6Decode(graph.Sparse6Encode(g)); err == nil {
+		out = append(out, d)
+	}
+	return out
 }
 
 func drain(sb *strings.Builder, next func() bool, value func() []int) {
@@ -549,6 +724,148 @@ func sharedInputScenario(name string, r *hx.Rng, G int) (jobs, ref []job, post f
 	return
 }
 
+// ---------------------------------------------------------------- two live objects, one advanced from inside the other's callback
+
+const nestedKinds = 7
+
+// nestedScenario: object A calls back into user code; the callback advances a second live
+// object B of the same kind by one step (and calls a few pure library functions).  Alone: A
+// runs with a callback that only counts its invocations, then B is advanced that many times.
+func nestedScenario(name string, r *hx.Rng, G int) (jobs, ref []job) {
+	kind := 0
+	if i := strings.IndexByte(name, ':'); i >= 0 {
+		kind, _ = strconv.Atoi(name[i+1:])
+	}
+	kind %= nestedKinds
+	var sharedDawg *dawg.Dawg
+	var sharedWords [][]byte
+	if kind == 6 {
+		sharedWords = wordsOver(r, r.Range(10, 80), alphabetOf(r), 5)
+		sharedDawg, _ = dawg.New(sharedWords)
+	}
+	for k := 0; k < G; k++ {
+		a, b := r.Range(3, 5), r.Range(3, 5)
+		salt := r.Intn(7)
+		// mkB returns a stepper of a fresh B
+		mkB := func() func() string {
+			iterStep := func(next func() bool, value func() []int) func() string {
+				return func() string {
+					if next() {
+						return fmt.Sprint(value())
+					}
+					return "end"
+				}
+			}
+			switch kind {
+			case 0:
+				it := itertools.PermutationsByPattern(b, func(p []int) bool { return len(p) < 2 || p[0] != salt%2 })
+				return iterStep(it.Next, it.Value)
+			case 1:
+				it := itertools.RestrictedPrefixPermutations(b, func(p []int) bool { return p[len(p)-1] != (len(p)+salt)%b })
+				return iterStep(it.Next, it.Value)
+			case 2:
+				it := itertools.RestrictedPrefixProduct(func(p []int) bool { return len(p) < 2 || p[len(p)-1] != p[len(p)-2] }, b, 2, 3)
+				return iterStep(it.Next, it.Value)
+			case 3:
+				it := itertools.TopologicalSorts(b, func(i, j int) bool { return i < j && (i+j+salt)%3 == 0 })
+				return iterStep(it.Next, it.Value)
+			case 4:
+				it := search.All(4, 0, 1)
+				return func() string {
+					if it.Next() {
+						return graph.Graph6Encode(it.Value())
+					}
+					return "end"
+				}
+			case 5:
+				c := 0
+				return func() string {
+					c++
+					var buf bytes.Buffer
+					tsp.LIB(&buf, c%4, func(i, j int) int { return i*j + salt })
+					own := []int{5, 3, c, salt, 1}
+					ints.Sort(own)
+					return fmt.Sprint(buf.Len(), own, comb.Coeff(20+c%20, 3), sortints.Union(sortints.NewSortedInts(own...), sortints.Range(0, c%9, 2)))
+				}
+			default:
+				c := 0
+				return func() string {
+					c++
+					i, ok := sharedDawg.Lookup(sharedWords[c%len(sharedWords)])
+					s := fmt.Sprint(i, ok)
+					if c%5 == 0 {
+						w, ids := sharedDawg.Search(&evenLength{})
+						s += fmt.Sprint(len(w), ids)
+					}
+					return s
+				}
+			}
+		}
+		// runA runs a fresh A to the end, invoking onCall at every callback
+		runA := func(onCall func()) string {
+			var sb strings.Builder
+			switch kind {
+			case 0:
+				it := itertools.PermutationsByPattern(a, func(p []int) bool { onCall(); return len(p) < 2 || p[0] < p[1] })
+				drain(&sb, it.Next, it.Value)
+			case 1:
+				it := itertools.RestrictedPrefixPermutations(a, func(p []int) bool { onCall(); return p[len(p)-1] != len(p)-1 })
+				drain(&sb, it.Next, it.Value)
+			case 2:
+				it := itertools.RestrictedPrefixProduct(func(p []int) bool { onCall(); return len(p) < 2 || p[len(p)-1] != p[len(p)-2] }, a, 2, 3)
+				drain(&sb, it.Next, it.Value)
+			case 3:
+				it := itertools.TopologicalSorts(a, func(i, j int) bool { onCall(); return i < j && (i+j)%3 == 0 })
+				for it.Next() {
+					fmt.Fprint(&sb, it.Value(), it.InverseValue())
+				}
+			case 4:
+				it := search.WithPruning(a, 0, 1, func(g *graph.DenseGraph) bool { onCall(); return false }, func(g *graph.DenseGraph) bool { onCall(); return g.M() > 4+salt%2 })
+				for it.Next() {
+					sb.WriteString(graph.Graph6Encode(it.Value()))
+				}
+			case 5:
+				var buf bytes.Buffer
+				err := tsp.LIB(&buf, a+2, func(i, j int) int { onCall(); return (i*31+j*17+salt)%97 + 1 })
+				fmt.Fprint(&sb, buf.String(), err)
+			default:
+				w, ids := sharedDawg.Search(&callingSearcher{onCall: onCall})
+				fmt.Fprint(&sb, len(w), ids)
+			}
+			return sb.String()
+		}
+		jobs = append(jobs, func() string {
+			var log []string
+			step := mkB()
+			out := runA(func() { log = append(log, step()) })
+			return out + " | " + strings.Join(log, ",")
+		})
+		ref = append(ref, func() string {
+			calls := 0
+			out := runA(func() { calls++ })
+			step := mkB()
+			log := make([]string, 0, calls)
+			for c := 0; c < calls; c++ {
+				log = append(log, step())
+			}
+			return out + " | " + strings.Join(log, ",")
+		})
+	}
+	return
+}
+
+// callingSearcher accepts every word of length at most 3 and calls out at every step.
+type callingSearcher struct {
+	depth  int
+	onCall func()
+}
+
+func (c *callingSearcher) AllowStep(b byte) bool { c.onCall(); return c.depth < 3 }
+func (c *callingSearcher) Step(b byte)           { c.depth++ }
+func (c *callingSearcher) Backstep()             { c.depth-- }
+func (c *callingSearcher) AllowWord() bool       { c.onCall(); return true }
+func (c *callingSearcher) Chosen()               {}
+
 // scenarioFull: jobs run concurrently; ref (if not nil) is the same work done alone on private
 // copies of the inputs (otherwise the jobs themselves, run one after the other, are the
 // reference); post (if not nil) is checked after all phases.
@@ -556,6 +873,16 @@ func scenarioFull(name string, r *hx.Rng, G int) (jobs, ref []job, extra func(re
 	if strings.HasPrefix(name, "shared-input") {
 		jobs, ref, post = sharedInputScenario(name, r, G)
 		return
+	}
+	if strings.HasPrefix(name, "nested-callbacks") {
+		jobs, ref = nestedScenario(name, r, G)
+		return
+	}
+	// name:<variant> enumerates provenance x query kind (dawg-shared) or the presentation (graph-shared)
+	variant := -1
+	if i := strings.IndexByte(name, ':'); i >= 0 {
+		variant, _ = strconv.Atoi(name[i+1:])
+		name = name[:i]
 	}
 	switch name {
 	case "shards": // the m shards of a split search, in parallel
@@ -640,7 +967,10 @@ func scenarioFull(name string, r *hx.Rng, G int) (jobs, ref []job, extra func(re
 	case "canon": // canonical labellings with separate storage
 		for k := 0; k < G; k++ {
 			n := r.Range(3, 11)
-			g := randomGraph(r, n, r.Range(1, 4), 5)
+			if r.Chance(1, 8) {
+				n = []int{16, 17, 32, 33}[r.Intn(4)]
+			}
+			g := structuredGraph(r, n)
 			sp := toSparse(g)
 			reps := r.Range(1, 3)
 			jobs = append(jobs, func() string {
@@ -655,16 +985,18 @@ func scenarioFull(name string, r *hx.Rng, G int) (jobs, ref []job, extra func(re
 			})
 		}
 	case "canon-shared-graph": // one graph labelled from several goroutines (each its own storage)
-		n := r.Range(4, 10)
-		g := randomGraph(r, n, 2, 5)
-		sp := toSparse(g)
+		n := r.Range(4, 12)
+		g := structuredGraph(r, n)
+		views := presentations(r, g)[:8]
+		same := r.Bool()
 		for k := 0; k < G; k++ {
-			k := k
+			v := views[k%len(views)]
+			if same {
+				v = views[0]
+			}
 			jobs = append(jobs, func() string {
-				if k%2 == 0 {
-					return fmt.Sprint(graph.CanonicalIsomorph(g))
-				}
-				return fmt.Sprint(graph.CanonicalIsomorph(sp))
+				p, orb, gens := graph.CanonicalIsomorphFull(v, nil)
+				return fmt.Sprint(p, orb.SmallestRep(), gens)
 			})
 		}
 	case "canon-allocated": // CanonicalIsomorphAllocated, every goroutine reusing its own storage
@@ -694,8 +1026,21 @@ func scenarioFull(name string, r *hx.Rng, G int) (jobs, ref []job, extra func(re
 		for k := 0; k < G; k++ {
 			kind := r.Intn(13)
 			a, b := r.Range(3, 7), r.Range(0, 4)
+			every := r.Range(1, 3) // Value is observed at every step, every 2nd, every 3rd; twice when observed
 			jobs = append(jobs, func() string {
 				var sb strings.Builder
+				step := 0
+				drain := func(sb *strings.Builder, next func() bool, value func() []int) {
+					for next() {
+						if step++; step%every == 0 {
+							fmt.Fprint(sb, value())
+							if every > 1 {
+								fmt.Fprint(sb, value())
+							}
+						}
+					}
+					fmt.Fprint(sb, next(), next()) // after exhaustion
+				}
 				switch kind {
 				case 0:
 					it := itertools.Combinations(a+2, b)
@@ -767,19 +1112,39 @@ func scenarioFull(name string, r *hx.Rng, G int) (jobs, ref []job, extra func(re
 				return sb.String()
 			})
 		}
-	case "dawg-shared": // Lookup / Search with separate searchers on one finished Dawg
-		ws := words(r, r.Range(20, 200), r.Range(2, 5), 7)
+	case "dawg-shared": // every read-only query of one finished Dawg, with separate searchers
+		alpha := alphabetOf(r)
+		ws := wordsOver(r, r.Range(20, 300), alpha, r.Range(2, 7))
 		d, err := dawg.New(ws)
 		if err != nil {
 			panic(err)
 		}
-		probes := words(r, 60, 5, 7)
+		prov, mode := r.Intn(3), r.Intn(6) // mode 0: mixed queries; 1..5: all goroutines issue the same kind of query
+		if variant >= 0 {
+			prov, mode = variant%3, (variant/3)%6
+		}
+		switch prov { // provenance of the shared value
+		case 1: // zero-value Builder, never initialised explicitly
+			var b dawg.Builder
+			for _, w := range ws {
+				b.Add(w)
+			}
+			d, _ = b.Finish()
+		case 2: // decoded
+			enc, _ := d.GobEncode()
+			d = new(dawg.Dawg)
+			if err := d.GobDecode(enc); err != nil {
+				panic(err)
+			}
+		}
+		probes := wordsOver(r, 60, alpha, 7)
+		dot := alpha[len(alpha)-1]
 		for k := 0; k < G; k++ {
-			pat := []byte("a.b..")[:r.Range(1, 5)]
-			ana := []byte("aabbc..")[:r.Range(1, 7)]
-			kind := k % 4
-			if G <= 3 && k < 2 {
-				kind = 0 // few goroutines: at least two of them look words up
+			pat := append([]byte{}, alpha[0], dot, alpha[1%len(alpha)], dot, dot)[:r.Range(1, 5)]
+			ana := append([]byte{}, alpha[0], alpha[0], alpha[1%len(alpha)], alpha[len(alpha)/2], dot, dot)[:r.Range(1, 6)]
+			kind := k % 5
+			if mode > 0 {
+				kind = mode - 1
 			}
 			jobs = append(jobs, func() string {
 				var sb strings.Builder
@@ -790,31 +1155,41 @@ func scenarioFull(name string, r *hx.Rng, G int) (jobs, ref []job, extra func(re
 						fmt.Fprintf(&sb, "%d%t,", i, ok)
 					}
 				case 1:
-					s, ids := d.Search(dawg.NewPatternSearcher(pat, '.'))
+					s, ids := d.Search(dawg.NewPatternSearcher(pat, dot))
 					fmt.Fprintf(&sb, "%q %v", s, ids)
 				case 2:
-					s, ids := d.Search(dawg.NewAnagramSearcher(ana, '.'))
+					s, ids := d.Search(dawg.NewAnagramSearcher(ana, dot))
 					fmt.Fprintf(&sb, "%q %v", s, ids)
 				case 3:
 					b, err := d.GobEncode()
 					fmt.Fprintf(&sb, "%x %v %d", b, err, d.NumberOfWords())
+				case 4: // two searchers at once, and a user's own searcher
+					s, ids := d.Search(dawg.NewPatternSearcher(pat, dot), dawg.NewAnagramSearcher(ana, dot))
+					s2, ids2 := d.Search(&evenLength{})
+					fmt.Fprintf(&sb, "%q %v %d %v", s, ids, len(s2), ids2)
 				}
 				return sb.String()
 			})
 		}
-	case "graph-shared": // observers on one graph in its four representations
-		n := r.Range(2, 14)
+	case "graph-shared": // observers and encoders on one graph in every presentation, sizes across thresholds
+		n := sizeAround(r, 2, 65)
 		g := randomGraph(r, n, r.Range(1, 4), 5)
-		sp := toSparse(g)
-		views := []graph.Graph{g, sp, graph.Complement(g), graph.Complement(sp), graph.InducedSubgraph(g, r.Perm(n)[:r.Range(1, n)]), graph.InducedSubgraph(sp, r.Perm(n)[:r.Range(1, n)]),
-			graph.Complement(graph.InducedSubgraph(g, r.Perm(n)[:r.Range(1, n)]))}
+		views := presentations(r, g)
+		same := r.Chance(1, 2) // all goroutines on the same presentation, or spread over them
+		pick := r.Intn(len(views))
+		if variant >= 0 {
+			same, pick = true, variant%len(views)
+		}
 		for k := 0; k < G; k++ {
-			v := views[k%len(views)]
-			enc := k%3 == 0
+			v := views[(pick+k)%len(views)]
+			if same {
+				v = views[pick]
+			}
+			enc := k%3 != 1
 			jobs = append(jobs, func() string {
 				s := observe(v)
 				if enc {
-					s += graph.Graph6Encode(v) + graph.Sparse6Encode(v) + graph.AdjacencyMatrixEncode(v) + fmt.Sprint(graph.MulticodeEncode(v))
+					s += graph.Graph6Encode(v) + graph.Sparse6Encode(v) + graph.AdjacencyMatrixEncode(v) + fmt.Sprint(graph.MulticodeEncode(v), graph.MaxDegree(v), graph.MinDegree(v))
 				}
 				return s
 			})
@@ -823,10 +1198,14 @@ func scenarioFull(name string, r *hx.Rng, G int) (jobs, ref []job, extra func(re
 		n := r.Range(3, 8)
 		g := randomGraph(r, n, r.Range(2, 4), 5)
 		sp := toSparse(g)
-		reps := []graph.Graph{g, sp, graph.Complement(g)}
+		reps := []graph.Graph{g, sp, graph.Complement(g), newUserGraph(g), graph.InducedSubgraph(sp, identity(n))}
+		sameBundle := r.Intn(10) // 0..4: all goroutines run this bundle on the same presentation
 		for k := 0; k < G; k++ {
 			v := reps[r.Intn(len(reps))]
 			bundle := r.Intn(5)
+			if sameBundle < 5 {
+				v, bundle = reps[sameBundle%len(reps)], sameBundle
+			}
 			seed := int64(r.Intn(1000))
 			u, w := r.Intn(n), r.Intn(n)
 			jobs = append(jobs, func() string {
@@ -849,7 +1228,9 @@ func scenarioFull(name string, r *hx.Rng, G int) (jobs, ref []job, extra func(re
 					fmt.Fprint(&sb, cc, graph.ConnectedComponent(v, u), bc, art, graph.IsPlanar(v), graph.RandomMaximalClique(v, seed))
 				case 3:
 					fmt.Fprint(&sb, graph.NumberOfInducedCycles(v, n), graph.NumberOfInducedPaths(v, n), graph.Equal(v, g), graph.Equal(v, sp))
-					fmt.Fprint(&sb, graph.NumberOfCycles(g), graph.NumberOfCycles(sp), graph.ChromaticPolynomial(g), graph.ChromaticPolynomial(sp))
+					if g.M() <= 11 { // exponential in the number of edges (and ~50x slower under the race detector)
+						fmt.Fprint(&sb, graph.NumberOfCycles(g), graph.NumberOfCycles(sp), graph.ChromaticPolynomial(g), graph.ChromaticPolynomial(sp))
+					}
 				case 4:
 					fmt.Fprint(&sb, graph.Graph6Encode(graph.ComplementDense(v)), graph.Graph6Encode(graph.LineGraphDense(v)))
 					sub := []int{u, (u + 1) % n}
@@ -867,10 +1248,15 @@ func scenarioFull(name string, r *hx.Rng, G int) (jobs, ref []job, extra func(re
 			ops := randInts(r, r.Range(3, 12), 1000)
 			jobs = append(jobs, func() string {
 				var e graph.EditableGraph
-				if dense {
+				switch {
+				case dense && len(ops)%2 == 0:
 					e = g.Copy()
-				} else {
+				case dense:
+					e = g.InducedSubgraph(identity(n)) // documented to be a deep copy as well
+				case len(ops)%2 == 0:
 					e = sp.Copy()
+				default:
+					e = sp.InducedSubgraph(identity(n))
 				}
 				var sb strings.Builder
 				for _, o := range ops {
@@ -945,21 +1331,31 @@ func scenarioFull(name string, r *hx.Rng, G int) (jobs, ref []job, extra func(re
 				return sb.String()
 			})
 		}
-	case "comb": // the package-level tables of comb are only read
+	case "comb": // the package-level tables of comb are only read; n across 32 / 62 / 66 where the code changes method
+		commonBase := r.Range(0, 62)
+		shareBase := r.Chance(1, 2) // all goroutines ask for the same rows at the same time
 		for k := 0; k < G; k++ {
-			base := r.Range(0, 60)
+			base := r.Range(0, 62)
+			if shareBase {
+				base = commonBase
+			}
 			jobs = append(jobs, func() string {
 				var sb strings.Builder
-				for n := base; n < base+8; n++ {
-					for kk := 0; kk <= n && kk < 9; kk++ {
-						fmt.Fprintf(&sb, "%d,", comb.Coeff(n, kk))
+				for n := base + 7; n >= base; n-- {
+					for kk := 0; kk <= n; kk++ {
+						if n <= 66 {
+							fmt.Fprintf(&sb, "%d,", comb.Coeff(n, kk))
+						}
+						if kk <= 6 || n <= 62 {
+							fmt.Fprintf(&sb, "%d,", comb.CoeffUint64(uint64(n), uint64(kk)))
+						}
 					}
 				}
-				for rk := base; rk < base+40; rk++ {
-					c := comb.Unrank(rk, 3)
+				for rk := base * 1000; rk < base*1000+40; rk++ {
+					c := comb.Unrank(rk, 3+base%4)
 					fmt.Fprintf(&sb, "%v%d;", c, comb.Rank(c))
 				}
-				fmt.Fprint(&sb, comb.Coeffs(base%20))
+				fmt.Fprint(&sb, comb.Coeffs(base%20), comb.Coeffs(33+base%30))
 				return sb.String()
 			})
 		}
@@ -983,13 +1379,20 @@ func scenarioFull(name string, r *hx.Rng, G int) (jobs, ref []job, extra func(re
 				return strings.Join(all, "") + strconv.Itoa(graph.CliqueNumber(g))
 			})
 		}
-	case "sortints-shared": // non-mutating set functions on shared arguments
-		a := sortints.NewSortedInts(r.Perm(30)[:r.Range(0, 20)]...)
-		b := sortints.NewSortedInts(r.Perm(30)[:r.Range(0, 20)]...)
+	case "sortints-shared": // non-mutating set functions on shared arguments, equal and very unequal sizes in both orders
+		la := []int{0, 1, 2, 8, 20, 64, 300}[r.Intn(7)]
+		lb := []int{0, 1, 3, 16, 20, 128, 512}[r.Intn(7)]
+		universe := 2*(la+lb) + 30
+		a := sortints.NewSortedInts(r.Perm(universe)[:la]...)
+		b := sortints.NewSortedInts(r.Perm(universe)[:lb]...)
+		if r.Bool() {
+			a, b = b, a
+		}
 		for k := 0; k < G; k++ {
 			jobs = append(jobs, func() string {
 				return fmt.Sprint(sortints.Union(a, b), sortints.Intersection(a, b), sortints.SetMinus(a, b), sortints.XOR(a, b),
-					sortints.IntersectionSize(a, b), sortints.Complement(31, a), sortints.ContainsSorted(a, b), sortints.ContainsSingle(a, 7), a, b)
+					sortints.IntersectionSize(a, b), sortints.Complement(universe+1, a), sortints.ContainsSorted(a, b), sortints.ContainsSorted(a, a),
+					sortints.ContainsSingle(a, 7), sortints.ContainsSingle(b, universe), a, b)
 			})
 		}
 	case "sortints-own": // mutating methods on own sets (the argument sets are shared and only read)
@@ -1012,7 +1415,18 @@ func scenarioFull(name string, r *hx.Rng, G int) (jobs, ref []job, extra func(re
 		sharedA := randInts(r, r.Range(1, 30), 20)
 		sharedB := append(append([]int{}, sharedA[:len(sharedA)/2]...), 99)
 		for k := 0; k < G; k++ {
-			own := randInts(r, r.Range(1, 200), 1000)
+			own := randInts(r, []int{1, 2, 11, 12, 13, 50, 200, 1000, 5000}[r.Intn(9)], []int{3, 1000, 1 << 40}[r.Intn(3)])
+			for i := range own {
+				if r.Chance(1, 4) {
+					own[i] = -own[i]
+				}
+			}
+			if r.Chance(1, 4) {
+				sort.Ints(own) // already sorted / reversed inputs take other paths of the sort
+				if r.Bool() {
+					ints.Reverse(own)
+				}
+			}
 			jobs = append(jobs, func() string {
 				a := append([]int{}, own...)
 				ints.Sort(a)
@@ -1054,6 +1468,53 @@ func scenarioFull(name string, r *hx.Rng, G int) (jobs, ref []job, extra func(re
 				return fmt.Sprint(buf.String(), err)
 			})
 		}
+	case "value-shared": // one paused iterator, its read-only Value observed from several goroutines
+		kind := r.Intn(6)
+		adv := r.Range(1, 9)
+		var value func() string
+		switch kind {
+		case 0:
+			it := itertools.Combinations(8, 3)
+			for c := 0; c < adv && it.Next(); c++ {
+			}
+			value = func() string { return fmt.Sprint(it.Value()) }
+		case 1:
+			it := itertools.Permutations(5)
+			for c := 0; c < adv && it.Next(); c++ {
+			}
+			value = func() string { return fmt.Sprint(it.Value()) }
+		case 2:
+			it := itertools.Product(3, 4, 2)
+			for c := 0; c < adv && it.Next(); c++ {
+			}
+			value = func() string { return fmt.Sprint(it.Value()) }
+		case 3:
+			it := itertools.Partitions(6)
+			for c := 0; c < adv && it.Next(); c++ {
+			}
+			value = func() string { return fmt.Sprint(it.Value()) }
+		case 4:
+			it := itertools.IntegerPartitions(12)
+			for c := 0; c < adv && it.Next(); c++ {
+			}
+			value = func() string { return fmt.Sprint(it.Value()) }
+		case 5:
+			it := search.All(5, 0, 1)
+			for c := 0; c < adv && it.Next(); c++ {
+			}
+			value = func() string { return observe(it.Value()) + graph.Graph6Encode(it.Value()) }
+		}
+		for k := 0; k < G; k++ {
+			jobs = append(jobs, func() string {
+				s := value()
+				for q := 0; q < 20; q++ {
+					if t := value(); t != s {
+						return s + " then " + t
+					}
+				}
+				return s
+			})
+		}
 	default:
 		panic("unknown scenario " + name)
 	}
@@ -1061,10 +1522,13 @@ func scenarioFull(name string, r *hx.Rng, G int) (jobs, ref []job, extra func(re
 }
 
 var scenarios = []string{"shards", "shards-pruned", "search-saveload", "canon", "canon-shared-graph", "canon-allocated", "iters", "builders", "dawg-shared",
-	"graph-shared", "graph-algos-shared", "editing-own", "generators", "encodings", "comb", "cliques", "sortints-shared", "sortints-own", "ints", "disjoint", "tsp"}
+	"graph-shared", "graph-algos-shared", "editing-own", "generators", "encodings", "comb", "cliques", "sortints-shared", "sortints-own", "ints", "disjoint", "tsp", "value-shared"}
 
 func exec1(line string) hx.Result {
 	f := strings.Split(line, ";")
+	if len(f) == 5 && f[4] == "cold" {
+		return coldCase(strings.Join(f[:4], ";"), f[0], f[2])
+	}
 	if len(f) != 4 {
 		return hx.Result{Obs: "bad-case"}
 	}
@@ -1072,25 +1536,74 @@ func exec1(line string) hx.Result {
 	G, _ := strconv.Atoi(f[2])
 	rounds, _ := strconv.Atoi(f[3])
 	r := hx.NewRng(seed)
-	atomic.StoreInt32(&maxActive, 0)
-	jobs, ref, extra, post := scenarioFull(f[0], r, G)
-	want, diff, overlapped, seqHang := runBoth(jobs, ref, rounds)
-	res := hx.Result{Obs: "ok", Nontrivial: overlapped && len(jobs) >= 2, Buckets: []string{"scenario:" + strings.SplitN(f[0], ":", 2)[0], "goroutines=" + f[2]}}
-	if seqHang {
-		res.Nontrivial = false
-		res.Buckets = append(res.Buckets, "outcome:not-finished-even-alone")
-		return res
+	sawOverlap = false
+	res := hx.Result{Obs: "ok", Buckets: []string{"scenario:" + strings.SplitN(f[0], ":", 2)[0], "goroutines=" + f[2]}}
+	// the scenario is built afresh three times (new shared values, new data from the same
+	// generator state): a write that happens once per value -- a lazily finished decode, a
+	// cache filled by the first query -- gets three chances to be seen by the race detector,
+	// whose shadow memory remembers only the last few accesses of a word
+	for fresh := 0; fresh < 3; fresh++ {
+		jobs, ref, extra, post := scenarioFull(f[0], r, G)
+		want, diff, overlapped, seqHang := runBoth(jobs, ref, rounds)
+		res.Nontrivial = res.Nontrivial || (overlapped && len(jobs) >= 2)
+		if seqHang {
+			res.Nontrivial = false
+			res.Buckets = append(res.Buckets, "outcome:not-finished-even-alone")
+			return res
+		}
+		if diff == "" && extra != nil {
+			diff = extra(want)
+		}
+		if diff == "" && post != nil {
+			diff = post()
+		}
+		if diff != "" {
+			res.Obs = "diff"
+			res.Viol = append(res.Viol, hx.Fail("C19:"+f[0], "%s: %s", f[0], diff))
+			return res
+		}
 	}
-	if diff == "" && extra != nil {
-		diff = extra(want)
+	return res
+}
+
+// coldProcess: this process was started to run exactly one case (see coldCase)
+var coldProcess = os.Getenv("C19_COLD") != ""
+
+// coldCase runs one case as the FIRST thing a fresh process does, so that every lazily
+// initialised package-level table, cache or pool of the library is met by several goroutines at
+// once while it is still empty (the long-lived workers are warm after their first cases).
+func coldCase(line, scen, G string) hx.Result {
+	cmd := exec.Command(os.Args[0], "-worker")
+	cmd.Stdin = strings.NewReader(line + "\n")
+	cmd.Env = append(os.Environ(), "C19_COLD=1")
+	var stdout, stderr bytes.Buffer
+	cmd.Stdout, cmd.Stderr = &stdout, &stderr
+	done := make(chan error, 1)
+	if err := cmd.Start(); err != nil {
+		return hx.Result{Obs: "ok", Buckets: []string{"outcome:cold-process-not-started"}}
 	}
-	if diff == "" && post != nil {
-		diff = post()
+	go func() { done <- cmd.Wait() }()
+	var err error
+	select {
+	case err = <-done:
+	case <-time.After(6 * phaseLimit):
+		cmd.Process.Kill()
+		<-done
+		return hx.Result{Obs: "diff", Viol: []hx.OracleViolation{hx.Fail("C19:"+scen, "%s: a fresh process running this case did not finish", scen)}}
 	}
-	if diff != "" {
-		res.Obs = "diff"
-		res.Viol = append(res.Viol, hx.Fail("C19:"+f[0], "%s: %s", f[0], diff))
+	msg := stderr.String()
+	if len(msg) > 1500 {
+		msg = msg[:1500]
 	}
+	if strings.Contains(msg, "DATA RACE") {
+		return hx.Result{Obs: "race", Buckets: []string{"scenario:" + strings.SplitN(scen, ":", 2)[0], "goroutines=" + G, "cold"},
+			Viol: []hx.OracleViolation{hx.Fail("race", "data race reported by the race detector on first use in a fresh process: %s", msg)}}
+	}
+	var res hx.Result
+	if err != nil || json.Unmarshal(bytes.TrimSpace(stdout.Bytes()), &res) != nil {
+		return hx.Result{Obs: "crash", Viol: []hx.OracleViolation{hx.Fail("C19:"+scen, "%s: a fresh process running this case died: %v %s", scen, err, msg)}}
+	}
+	res.Buckets = append(res.Buckets, "cold")
 	return res
 }
 
@@ -1148,12 +1661,42 @@ func gen(g *hx.Gen) {
 			g.Emit(fmt.Sprintf("%s;%d;%d;%d", s, g.Rng.U64()%1000000, G, g.Pick(2, 4)))
 		}
 	}
+	// every function family once as the first thing a fresh process does (cold tables and caches)
+	for _, s := range scenarios {
+		for i := 0; i < g.Pick(3, 8); i++ {
+			G := []int{8, 16}[g.Rng.Intn(2)]
+			if strings.HasPrefix(s, "shards") {
+				G = []int{4, 5, 7}[g.Rng.Intn(3)]
+			}
+			g.Emit(fmt.Sprintf("%s;%d;%d;%d;cold", s, g.Rng.U64()%1000000, G, 2))
+		}
+	}
+	// every provenance x query kind of a shared Dawg, every presentation of a shared graph
+	for v := 0; v < 18; v++ {
+		for i := 0; i < g.Pick(1, 6); i++ {
+			g.Emit(fmt.Sprintf("dawg-shared:%d;%d;%d;%d", v, g.Rng.U64()%1000000, []int{2, 3, 4, 8}[g.Rng.Intn(4)], g.Pick(2, 4)))
+		}
+	}
+	for v := 0; v < 16; v++ {
+		for i := 0; i < g.Pick(1, 6); i++ {
+			g.Emit(fmt.Sprintf("graph-shared:%d;%d;%d;%d", v, g.Rng.U64()%1000000, []int{2, 3, 4, 8}[g.Rng.Intn(4)], g.Pick(2, 4)))
+		}
+	}
+	for kind := 0; kind < nestedKinds; kind++ {
+		for i := 0; i < g.Pick(1, 10); i++ {
+			g.Emit(fmt.Sprintf("nested-callbacks:%d;%d;%d;%d", kind, g.Rng.U64()%1000000, []int{2, 3, 4, 8}[g.Rng.Intn(4)], g.Pick(2, 4)))
+		}
+		g.Emit(fmt.Sprintf("nested-callbacks:%d;%d;%d;%d;cold", kind, g.Rng.U64()%1000000, 4, 2))
+	}
 	// values built from the same caller slices: every kind of constructor in every run
 	for _, s := range []string{"shared-input", "shared-input-handoff"} {
 		for kind := 0; kind < sharedKinds; kind++ {
 			for i := 0; i < g.Pick(1, 10); i++ {
 				G := []int{2, 3, 4, 8}[g.Rng.Intn(4)]
 				g.Emit(fmt.Sprintf("%s:%d;%d;%d;%d", s, kind, g.Rng.U64()%1000000, G, g.Pick(2, 4)))
+			}
+			if s == "shared-input" {
+				g.Emit(fmt.Sprintf("%s:%d;%d;%d;%d;cold", s, kind, g.Rng.U64()%1000000, 4, 2))
 			}
 		}
 	}
@@ -1164,7 +1707,7 @@ func gen(g *hx.Gen) {
 
 func main() {
 	hx.Main(hx.Prop{
-		Rule:        "case = scenario, seed, number of goroutines, rounds; every goroutine's result is compared with the same work done alone, under the race detector; non-trivial = at least two goroutines were observed inside their work at the same time (shared atomic counter); distinct by case text",
+		Rule:        "case = scenario, seed, number of goroutines, rounds; every goroutine's result is compared with the same work done alone, under the race detector; non-trivial = at least two goroutines were inside their work at the same time (per-goroutine time stamps; no shared counter, which would order the goroutines for the race detector); distinct by case text",
 		Gen:         gen,
 		Exec:        exec1,
 		CaseTimeout: 400 * time.Second,
